@@ -7,6 +7,7 @@ import (
 	"math/big"
 	"strings"
 
+	"github.com/iden3/go-iden3-crypto/babyjub"
 	"github.com/iden3/go-iden3-crypto/constants"
 	"github.com/iden3/go-schema-processor/v2/verifiable"
 )
@@ -179,4 +180,74 @@ func emitClaimHex(out *Out, r *Rng) {
 		why = append(why, fmt.Sprintf("a string that spells no claim (%s: %q) is accepted", kind, cased))
 	}
 	out.Emit(Case{Op: "hex.claim", In: J{"s": cased}, Impl: impl, Prop: propOf(why), Tags: []string{"claim-hex", "kind:" + kind, fmt.Sprintf("recased:%v", cased != s)}, NT: true})
+}
+
+// the signature member of a BJJSignature2021 proof (validateCompSignature): 64 bytes in hexadecimal that decompress. The harness asks
+// go-iden3-crypto directly whether the bytes decompress (oracle bit); the model decides on the spelling (Gsp.Hex.compSigOk;
+// Props.C14.comp_signature_spelling).
+func emitSigHex(out *Out, r *Rng, is *Issuer) {
+	var slots [8]*big.Int
+	for i := range slots {
+		slots[i] = r.BigBelow(constants.Q)
+	}
+	claimHex := claimHexOf(slots)
+	sig := is.sk.SignPoseidon(r.BigBelow(constants.Q)).Compress()
+	s := hex.EncodeToString(sig[:])
+	kind := "valid"
+	switch k := r.Intn(10); {
+	case k < 3:
+	case k < 5:
+		kind = "length"
+		s = []string{s[:len(s)-2], s[:len(s)-1], s + "00", s + "0", "", s + s}[r.Intn(6)]
+	case k < 7:
+		kind = "not-a-digit"
+		i := r.Intn(len(s))
+		s = s[:i] + r.Pick([]string{"g", "G", " ", "x", "-", "@"}) + s[i+1:]
+	case k < 9:
+		kind = "garbage-bytes"
+		b := make([]byte, 64)
+		for i := range b {
+			b[i] = byte(r.U64())
+		}
+		s = hex.EncodeToString(b)
+	default:
+		kind = "prefix"
+		s = "0x" + s
+	}
+	cased := s
+	if r.Chance(60) {
+		b := []byte(s)
+		for i, c := range b {
+			if c >= 'a' && c <= 'f' && r.Chance(50) {
+				b[i] = c - 32
+			}
+		}
+		cased = string(b)
+	}
+	// oracle: do the bytes (if the string spells 64 of them) decompress?
+	decompresses := false
+	if raw, err := hex.DecodeString(cased); err == nil && len(raw) == 64 {
+		var sc babyjub.SignatureComp
+		copy(sc[:], raw)
+		_, e := sc.Decompress()
+		decompresses = e == nil
+	}
+	pj, _ := json.Marshal(J{"type": "BJJSignature2021", "issuerData": J{"id": "did:x:y", "state": J{}}, "coreClaim": claimHex, "signature": cased})
+	var p verifiable.BJJSignatureProof2021
+	derr := json.Unmarshal(pj, &p)
+	impl := J{"err": "err"}
+	if derr == nil {
+		impl = J{"ok": "ok"}
+	}
+	var why []string
+	if kind == "valid" && derr != nil {
+		why = append(why, fmt.Sprintf("a compressed signature written in hexadecimal (%s) is refused: %v", cased, derr))
+	}
+	if (kind == "length" || kind == "not-a-digit" || kind == "prefix") && derr == nil {
+		why = append(why, fmt.Sprintf("a string that spells no 64-byte signature (%s: %q) is accepted", kind, cased))
+	}
+	if derr == nil && p.Signature != cased {
+		why = append(why, "the decoded proof carries another signature string than the one written")
+	}
+	out.Emit(Case{Op: "hex.sig", In: J{"s": cased, "decompresses": decompresses}, Impl: impl, Prop: propOf(why), Tags: []string{"sig-hex", "kind:" + kind, fmt.Sprintf("recased:%v", cased != s)}, NT: true})
 }
